@@ -2,6 +2,7 @@ package main
 
 import (
 	"fmt"
+	"regexp"
 	"go/ast"
 	"go/types"
 	"sort"
@@ -56,6 +57,9 @@ func stdKey(f *types.Func) string {
 
 func checkC07(r *Run) {
 	p := r.Prog
+	// the loops and absorb sequences that fold every party's contribution into a joint value (session id,
+	// seeds, nonce points) keep their bounds, conditions and order (guard / branch-condition / sponge-op inventories)
+	genericGuards(r)
 	r.Rule("C07.P1", "reader provenance at use: every io.Reader argument of every call in non-test library code originates from a parameter of the enclosing function (the caller's source), from a struct field (checked by P2), or from an enumerated deterministic derivation; package-level readers (crypto/rand.Reader), nil and literals are violations outside the named exemptions")
 	r.Rule("C07.P2", "reader provenance at store: every store to an io.Reader-typed struct field stores a parameter-origin value (no ambient default, no nil fallback)")
 	r.Rule("C07.S2", "readers that are ignored: no caller-supplied reader is passed to a standard-library function that ignores its reader since Go 1.26 (crypto/rand.Prime, crypto/rsa.GenerateKey, crypto/ecdsa.Sign, …): the output would not depend on the caller's source")
@@ -125,7 +129,7 @@ func checkC07(r *Run) {
 	checkSchemeOnlyVerifies(r)
 	// P2: stores to io.Reader fields
 	nP2 := 0
-	for _, fd := range p.FuncsIn(c07Scope) {
+	for _, fd := range p.AllFuncsIn(c07Scope) {
 		if strings.Contains(p.RelFile(fd.Decl.Pos()), "/testutils") {
 			continue
 		}
@@ -266,7 +270,18 @@ func checkSamplerInventory(r *Run) {
 		if og == "FIELD" && s.Field != nil {
 			og = "FIELD." + s.Field.Name()
 		}
-		now[k][s.Callee+" <- "+og]++
+		// what is sampled into (the other operands) and how often (enclosing loops) is part of the sampler
+		var ops []string
+		for i, a := range s.Call.Args {
+			if i != s.ArgIdx {
+				ops = append(ops, s.Unit.argShape(a, s.Call, 1))
+			}
+		}
+		entry := s.Callee + " <- " + og + " (" + strings.Join(ops, ", ") + ")"
+		if lc := s.Unit.loopContext(s.Call); len(lc) > 0 {
+			entry += " @" + strings.Join(lc, " / ")
+		}
+		now[k][entry]++
 	}
 	// samplers of unexported helpers count for their callers (extracting a helper does not change the inventory)
 	direct := now
@@ -290,7 +305,7 @@ func checkSamplerInventory(r *Run) {
 			return true
 		})
 	}
-	for _, fd := range p.FuncsIn(c07Scope) {
+	for _, fd := range p.AllFuncsIn(c07Scope) {
 		m := map[string]int{}
 		expand(fd, m, map[*FuncDecl]bool{}, 0)
 		if len(m) > 0 {
@@ -369,7 +384,7 @@ func includesCounts(have, want map[string]int) bool {
 func checkDirectReads(r *Run) {
 	p := r.Prog
 	nReads, nBufs := 0, 0
-	for _, fd := range p.FuncsIn(c07Scope) {
+	for _, fd := range p.AllFuncsIn(c07Scope) {
 		if strings.Contains(p.RelFile(fd.Decl.Pos()), "/testutils") {
 			continue
 		}
@@ -408,7 +423,7 @@ func checkDirectReads(r *Run) {
 				if buf != nil {
 					nBufs++
 					sh := u.argShape(buf, c, 0)
-					r.Check(!strings.Contains(sh, ",0,") && !strings.HasSuffix(sh, ",0)"), "C07.P5", FuncKey(fd.Obj)+" :: buffer "+sh, p.RelPos(c.Pos()), "sample buffer `"+sh+"` must not have constant length 0")
+					r.Check(!strings.Contains(sh, ",0,") && !strings.HasSuffix(sh, ",0)") && !emptySliceShape(sh), "C07.P5", FuncKey(fd.Obj)+" :: buffer "+sh, p.RelPos(c.Pos()), "sample buffer `"+sh+"` must not be empty (constant length 0, or a slice that starts at its own length)")
 				}
 				return true
 			})
@@ -418,3 +433,11 @@ func checkDirectReads(r *Run) {
 	r.RequireCount("C07.P5", "sample buffers", nBufs, 40)
 	r.RequireCount("C07.P4", "direct interface Read calls (adaptors)", nReads, 1)
 }
+
+// emptySliceShape: make([]T, N)[N:] – a slice that starts where the buffer ends.
+func emptySliceShape(sh string) bool {
+	m := emptySliceRe.FindStringSubmatch(sh)
+	return m != nil && m[1] == m[2]
+}
+
+var emptySliceRe = regexp.MustCompile(`^make\(<[^>]*>,(.+)\)\[(.+):\]$`)
